@@ -256,16 +256,18 @@ pub fn is_valid_identifier(name: &str) -> bool {
 }
 
 fn name_needs_quoting(name: &str) -> bool {
-    let chars = name.chars();
-    // it contains any of these characters: ()'$,;-+{} or space
-    for (i, char) in chars.enumerate() {
-        if [' ', '(', ')', '\'', '$', ',', ';', '-', '+', '{', '}'].contains(&char) {
-            return true;
-        }
-        // if it starts with a number
-        if i == 0 && char.is_ascii_digit() {
-            return true;
-        }
+    // The lexer reads an unquoted sheet name as an identifier: a letter or an
+    // underscore followed by letters, digits, underscores and dots. Anything else
+    // (spaces, ()'$,;-+{}!"#%&<=>@^~, a leading digit or dot, ...) needs quotes
+    let mut chars = name.chars();
+    match chars.next() {
+        Some(first) if first.is_alphabetic() || first == '_' => {}
+        // the empty string is not a sheet name, there is nothing to quote
+        None => return false,
+        _ => return true,
+    }
+    if !chars.all(|char| char.is_alphanumeric() || char == '_' || char == '.') {
+        return true;
     }
     if parse_reference_a1(name).is_some() {
         // cell reference in A1 notation, e.g. B1048576 is quoted, B1048577 is not
